@@ -409,6 +409,77 @@ fn process_wide_state(root: &Path) -> R<String> {
                q(&v.statics), q(&v.tls), v.umask))
 }
 
+/// Inventory of the places that can PANIC in code that runs inside a job of the parblock pool (the closure given to
+/// `pool.execute` and everything it calls in the three crates, including the drop of the last handle): `panic!`-family
+/// macros, `.unwrap()` / `.expect()`, index and slice expressions.  A panic there is reported by nobody — the pool
+/// replaces the thread and the dispatcher returns Ok — so each site must be shown harmless, and a new one re-opens C04.
+fn pool_job_panic_sites(root: &Path) -> R<String> {
+    struct V { sites: Vec<String>, under: Vec<String> }
+    impl<'ast> Visit<'ast> for V {
+        fn visit_expr_if(&mut self, i: &'ast syn::ExprIf) {
+            // a site inside the then-branch of an `if` is recorded with the condition(s) it stands under
+            self.visit_expr(&i.cond);
+            self.under.push(quote::ToTokens::to_token_stream(&i.cond).to_string().replace(' ', ""));
+            self.visit_block(&i.then_branch);
+            self.under.pop();
+            if let Some((_, e)) = &i.else_branch { self.visit_expr(e); }
+        }
+        fn visit_macro(&mut self, m: &'ast syn::Macro) {
+            let n = m.path.segments.last().map(|x| x.ident.to_string()).unwrap_or_default();
+            if ["panic", "unreachable", "assert", "assert_eq", "assert_ne", "todo", "unimplemented"].contains(&n.as_str()) {
+                if self.under.is_empty() { self.sites.push(format!("{}!", n)); }
+                else { self.sites.push(format!("{}! under {}", n, self.under.join(" && "))); }
+            }
+        }
+        fn visit_expr_method_call(&mut self, c: &'ast syn::ExprMethodCall) {
+            let n = c.method.to_string();
+            if n == "unwrap" || n == "expect" {
+                self.sites.push(format!("{}.{}()", quote::ToTokens::to_token_stream(&c.receiver).to_string().replace(' ', ""), n));
+            }
+            syn::visit::visit_expr_method_call(self, c)
+        }
+        fn visit_expr_index(&mut self, i: &'ast syn::ExprIndex) {
+            self.sites.push(quote::ToTokens::to_token_stream(i).to_string().replace(' ', ""));
+            syn::visit::visit_expr_index(self, i)
+        }
+    }
+    let mut rows: Vec<String> = vec![];
+    // the job closure itself
+    let pb = load(root, "libxcp/src/drivers/parblock.rs")?;
+    {
+        let (_, block) = find_fn(&pb, "queue_file_range")?;
+        struct C { body: Option<Expr> }
+        impl<'ast> Visit<'ast> for C {
+            fn visit_expr_method_call(&mut self, c: &'ast syn::ExprMethodCall) {
+                if c.method == "execute" && self.body.is_none() {
+                    if let Some(Expr::Closure(cl)) = c.args.first() { self.body = Some((*cl.body).clone()); }
+                }
+                syn::visit::visit_expr_method_call(self, c)
+            }
+        }
+        let mut c = C { body: None };
+        c.visit_block(block);
+        let body = c.body.ok_or("queue_file_range: no closure given to pool.execute")?;
+        let mut v = V { sites: vec![], under: vec![] };
+        v.visit_expr(&body);
+        for s in v.sites { rows.push(format!("(\"parblock::queue_file_range(job)\", \"{}\")", s.replace('"', "\"\""))); }
+    }
+    for (file, fns) in [("libfs/src/linux.rs", vec!["copy_file_offset", "try_copy_file_range"]),
+                        ("libfs/src/common.rs", vec!["copy_range_uspace", "read_bytes", "write_bytes", "copy_permissions", "copy_xattr", "copy_timestamps", "copy_owner", "sync"]),
+                        ("libxcp/src/feedback.rs", vec!["send"]),
+                        ("libxcp/src/operations.rs", vec!["finalise_copy", "drop"])] {
+        let src = load(root, file)?;
+        for f in fns {
+            let (_, block) = find_fn(&src, f)?;
+            let mut v = V { sites: vec![], under: vec![] };
+            v.visit_block(block);
+            let stem = file.rsplit('/').next().unwrap_or(file).trim_end_matches(".rs");
+            for s in v.sites { rows.push(format!("(\"{}::{}\", \"{}\")", stem, f, s.replace('"', "\"\""))); }
+        }
+    }
+    Ok(format!("(* every place that can panic in code run inside a job of the parblock pool: panic!-family macros, unwrap/expect, index and slice expressions *)\nDefinition x_pool_job_panic_sites : list (string * string) := [{}].\n", rows.join("; ")))
+}
+
 fn find_fn<'a>(src: &'a Src, name: &str) -> R<(&'a syn::Signature, &'a Block)> {
     for it in &src.file.items {
         match it {
@@ -1686,6 +1757,21 @@ fn eff_function(src: &Src, cfg: &EffCfg) -> R<String> {
     if let Some(bl) = &buf_len {
         let mut bl = bl.clone();
         for (r, g) in cfg.params { if r != g { bl = bl.replace(r, g); } }
+        // every name in the length must be a parameter or a constant of the file (inlined): nothing else may leak into
+        // Extracted.v, where an unknown name would break every property instead of the ones that depend on this function
+        let mut names: Vec<String> = vec![];
+        let mut cur = String::new();
+        for ch in bl.chars().chain(std::iter::once(' ')) {
+            if ch.is_alphanumeric() || ch == '_' { cur.push(ch); } else { if !cur.is_empty() { names.push(cur.clone()); cur.clear(); } }
+        }
+        for n in names {
+            if n.chars().next().map(|c| c.is_ascii_digit()).unwrap_or(true) { continue; }
+            if n == "N" || n == "min" || n == "max" || pnames.contains(&n) { continue; }
+            match find_const(src, &n) {
+                Some(v) => { bl = bl.replace(&n, &v); }
+                None => return Err(format!("{}: buffer length mentions `{}`, which is neither a parameter nor a literal constant", cfg.fname, n)),
+            }
+        }
         // every slice `buf[..x]` taken in the loop body, as written
         let bt = quote::ToTokens::to_token_stream(&wl.body).to_string().replace(' ', "");
         let mut slices: Vec<String> = vec![];
@@ -2153,6 +2239,7 @@ fn main() {
         Err(e) => emit("options.rs", Err(e), &mut out),
     }
     emit("process-wide state", process_wide_state(root), &mut out);
+    emit("pool job panic sites", pool_job_panic_sites(root), &mut out);
     match load(root, "libxcp/src/config.rs") {
         Ok(src) => emit("Config::num_workers", num_workers(&src), &mut out),
         Err(e) => emit("config.rs", Err(e), &mut out),
